@@ -138,7 +138,8 @@ async fn run_tcp_system_inner(plan: &Plan, atomic_handshake: bool, via_port: u16
         }
         if waited >= budget_ms {
             // slow is not stalled: while sockets are still moving bytes, keep waiting (bounded)
-            let ev = world::with(|w| w.ev_count);
+            // (progress = bytes moving on stream sockets; QUIC keep-alive datagrams are not progress)
+            let ev = world::with(|w| w.stats.tcp_reads + w.stats.tcp_writes);
             if ev != last_ev && waited < 40 * budget_ms {
                 last_ev = ev;
                 budget_ms += 30_000;
@@ -347,18 +348,20 @@ pub fn gen_flow(g: &mut Gen, ix: usize, hs: LocalHs, ending: Ending, max_bytes: 
 pub const C01_ENDINGS: [Ending; 5] = [Ending::None, Ending::AppAfterWrite, Ending::AppAfterAll, Ending::TargetAfterWrite, Ending::TargetAfterAll];
 pub const ALL_HS: [LocalHs; 4] = [LocalHs::Socks5V4, LocalHs::Socks5Domain, LocalHs::HttpConnect, LocalHs::HttpPlain];
 pub const TCP_TRANSPORTS: [Transport; 4] = [Transport::Tcp, Transport::Tls, Transport::Ws, Transport::Wss];
+/// every client <-> server transport of the README table
+pub const ALL_TRANSPORTS: [Transport; 5] = [Transport::Tcp, Transport::Tls, Transport::Ws, Transport::Wss, Transport::Quic];
 
 /// C01 plan for a seed: the configuration cell cycles through the README table, everything else is drawn.
 pub fn gen_c01(seed: u64, thorough: bool) -> Plan {
     let mut g = Gen::new(seed, 1);
     let cells = all_proto_ciphers();
     let (proto, cipher) = cells[(seed as usize) % cells.len()];
-    let transport = TCP_TRANSPORTS[((seed as usize) / cells.len()) % TCP_TRANSPORTS.len()];
+    let transport = ALL_TRANSPORTS[((seed as usize) / cells.len()) % ALL_TRANSPORTS.len()];
     let n_users = if proto == Proto::Shadowsocks && supports_eih(cipher) && g.chance(50) { g.range(1, 3) as usize } else { 0 };
     let config = gen_config(&mut g, proto, cipher, transport, n_users);
     let n_flows = if thorough { g.range(1, 12) } else { g.range(1, 4) } as usize;
     let max_bytes = if thorough && g.chance(10) { 3_000_000 } else if g.chance(20) { 200_000 } else { 20_000 };
-    let knobs = KnobsPlan::generate(&mut g).for_transport(transport);
+    let knobs = KnobsPlan::generate(&mut g).for_transport(transport).with_dgram_faults(&mut g, transport);
     let max_bytes = if knobs.sndbuf <= 64 { max_bytes.min(6000) } else { max_bytes };
     // byte-at-a-time reads under TLS cost a deframer pass per byte: keep those runs short, not absent
     let tlsish = matches!(transport, Transport::Tls | Transport::Wss);
